@@ -47,6 +47,14 @@ const (
 )
 
 func presetCfg(t *rapid.T) gen.AsmConfig {
+	c := presetCfg0(t)
+	if !c.Legacy {
+		c.NOP94 = rapid.Bool().Draw(t, "nop94")
+	}
+	return c
+}
+
+func presetCfg0(t *rapid.T) gen.AsmConfig {
 	legacy := rapid.IntRange(0, 2).Draw(t, "dialect") == 0
 	switch rapid.IntRange(0, 4).Draw(t, "preset") {
 	case 0:
@@ -125,7 +133,9 @@ func adversarial(t *rapid.T) string {
 		fmt.Fprintf(&sb, "a%d equ 1\nb%d equ 2\ndat a0\n", n, n)
 		return sb.String()
 	case 9: // pseudo-ops in odd places
-		return rapid.SampledFrom([]string{"equ 5\n", "x equ\n", "org\n", "end end\n", "for\n", "x for\nrof\n", "org 0\norg 1\ndat 0\ndat 0\n", "end\ngarbage = | &\n", "x equ 1\nx equ 2\ndat x\n", "x dat 0\nx dat 1\n", "dat\n", "dat ,\n", "dat 1,\n", "mov.\n", ".\n", ":\n", "a:\n", "a: b: c:\n", ";assert\n", ";assert (\n", ";assert 1 ==\n", ";assert 1/0\ndat 0\n", "for 2\n;assert 0\nrof\n"}).Draw(t, "odd")
+		return rapid.SampledFrom([]string{"equ 5\n", "x equ\n", "org\n", "end end\n", "for\n", "x for\nrof\n", "org 0\norg 1\ndat 0\ndat 0\n", "end\ngarbage = | &\n", "x equ 1\nx equ 2\ndat x\n", "x dat 0\nx dat 1\n", "dat\n", "dat ,\n", "dat 1,\n", "mov.\n", ".\n", ":\n", "a:\n", "a: b: c:\n", ";assert\n", ";assert (\n", ";assert 1 ==\n", ";assert 1/0\ndat 0\n", "for 2\n;assert 0\nrof\n",
+			"x equ ;c\ndat x\n", "x equ;\ndat 1, x\n", "x equ ; c\ny equ x\ndat y+1\n", "x equ ;c\nfor x\ndat 0\nrof\n", "x equ ;c\n;assert x\ndat 0\n", "x equ ;c\norg x\ndat 0\n",
+			"org ;c\ndat 0\n", "end ;c\n", "for ;c\ndat 0\nrof\n", "dat ;c\n", "dat 1, ;c\n", "x equ ( ;c\ndat x )\n"}).Draw(t, "odd")
 	case 10: // nested FORs with counters in counts
 		a := rapid.IntRange(0, 5).Draw(t, "a")
 		return fmt.Sprintf("i for %d\nj for i\ndat i, j\nrof\nrof\n", a) + "dat 0" + nl()
@@ -180,6 +190,8 @@ func request(c termCase) wk.Request {
 	mode := 2
 	if c.Cfg.Legacy {
 		mode = 0
+	} else if c.Cfg.NOP94 {
+		mode = 1
 	}
 	return wk.Request{Mode: mode, M: uint64(c.Cfg.CoreSize), P: uint64(c.Cfg.Processes), L: uint64(c.Cfg.Length), D: uint64(c.Cfg.Distance), Text: []byte(c.Text)}
 }
